@@ -92,6 +92,7 @@ def scenarios(tier):
                 L.append("leak %s %s" % (fl, ep))
             if ep in ("lookup", "lookupAll", "subscriptions"):
                 L.append("lazyreq %s %s" % (fl, ep))
+                L.append("leak3 %s %s" % (fl, ep))
             if ep in ("queryAdapter", "adapter_hook"):
                 L.append("descr %s %s" % (fl, ep))
             if ep in ("lookup", "lookup1", "queryAdapter", "adapter_hook", "queryMultiAdapter"):
